@@ -58,6 +58,20 @@ Pick(ls, K) == LET idx == {i \in 1..Len(ls) : i \in K} IN
                IN P(1)
 DPImpl(ls, n, d) == IF Len(ls) <= 2 THEN ls ELSE Pick(ls, {1, Len(ls)} \cup DPKeep(ls, 1, Len(ls), n, d))
 
+\* The same with every choice among vertices that are exactly equally far: the code compares rounded float64 distances,
+\* and where two vertices are equally far in exact arithmetic (1.6 computed through t = 0.2 and through t = 0.8) rounding
+\* decides which is "the first strict maximum".  DPImpl is the choice of the first; the code's result is one of these.
+RatEQ(x, y) == x[1] * y[2] = y[1] * x[2]
+RECURSIVE DPKeepAll(_,_,_,_,_)
+DPKeepAll(ls, s, e, n, d) ==
+  IF e <= s + 1 THEN {{}}
+  ELSE LET f == Farthest(ls, s, e, s + 1, <<0, 1>>, 0) IN
+       IF f[2] # 0 /\ f[1][1] * d > n * f[1][2]
+       THEN UNION {{{i} \cup a \cup b : a \in DPKeepAll(ls, s, i, n, d), b \in DPKeepAll(ls, i, e, n, d)} :
+                     i \in {j \in (s+1)..(e-1) : RatEQ(SegD2(ls[s], ls[e], ls[j]), f[1])}}
+       ELSE {{}}
+DPImplResults(ls, n, d) == IF Len(ls) <= 2 THEN {ls} ELSE {Pick(ls, {1, Len(ls)} \cup k) : k \in DPKeepAll(ls, 1, Len(ls), n, d)}
+
 \* ---------- implementation-shaped: radial -----------------------------------------------------------------
 RECURSIVE RadialScan(_,_,_,_,_,_)
 RadialScan(ls, i, cur, out, n, d) ==
